@@ -7,6 +7,8 @@ import (
 	"encoding/json"
 	"errors"
 	"fmt"
+	"github.com/transparency-dev/witness/internal/persistence"
+	"github.com/transparency-dev/witness/internal/verif/kit/seams"
 	"io"
 	"math/rand/v2"
 	"net/http"
@@ -15,6 +17,8 @@ import (
 	"os"
 	"sort"
 	"strings"
+	"sync"
+	"time"
 
 	"github.com/gorilla/mux"
 	whttp "github.com/transparency-dev/witness/client/http"
@@ -50,6 +54,9 @@ func main() {
 	run.Floor("reads_with_storage_fault", 200)
 	run.Floor("refused_first_submission_then_list", 300)
 	dir := run.Scratch()
+	// reads of different logs that overlap in time: each is answered with its own log's bytes
+	run.Floor("overlapping_reads_of_two_logs", 40)
+	run.Units("cross", run.Pick(48, 480), 16, func(unit int64, r *rand.Rand) { crossLogReads(run, unit, r, dir) })
 	run.Units("hist", run.Pick(800, 20000), 0, func(unit int64, r *rand.Rand) {
 		var router *mux.Router
 		var client whttp.Witness
@@ -216,4 +223,122 @@ func main() {
 			run.Inconclusive(err.Error())
 		}
 	})
+}
+
+// crossLogReads: GET (or bundled-client read) of log A is paused after it fetched its value from the store;
+// while it is open, log B is read through the same API. B's answer must be B's stored bytes (it may queue
+// behind A: it is judged on its bytes alone), and A's answer A's.
+func crossLogReads(run *ev.Run, unit int64, r *rand.Rand, dir string) {
+	u := gen.NewUniverse(r, gen.Opts{NLogs: 2 + r.IntN(2), MaxSize: 30, Branches: 1, ShareKeys: true})
+	st, err := wit.NewStore(wit.DrawStore(r), dir)
+	if err != nil {
+		run.Inconclusive(err.Error())
+		return
+	}
+	defer st.Close()
+	keys, _ := wit.NewWitKeys(r, []bool{false, true}, true)
+	var hook *seams.HookStore
+	rn, err := wit.NewRunner(u, keys, st, func(p persistence.LogStatePersistence) persistence.LogStatePersistence {
+		hook = seams.NewHookStore(p)
+		return hook
+	})
+	if err != nil {
+		run.Inconclusive(err.Error())
+		return
+	}
+	router := mux.NewRouter()
+	ihttp.NewServer(rn.W).RegisterHandlers(router)
+	base, _ := url.Parse("http://witness.invalid/")
+	client := whttp.NewWitness(base, &http.Client{Transport: inmem{router}})
+	want := map[string][]byte{}
+	for i, l := range u.Logs {
+		if i == len(u.Logs)-1 && r.IntN(3) == 0 {
+			continue // one log may hold nothing: its read must be a 404, not a neighbour's checkpoint
+		}
+		ret, err := rn.W.Update(context.Background(), l.ID, 0, l.Honest(0, 1+r.Uint64N(20)), nil)
+		if err != nil {
+			run.Inconclusive("first update refused: " + err.Error())
+			return
+		}
+		want[l.ID] = ret
+	}
+	viaClient := unit%2 == 1
+	read := func(id string) (int, []byte) {
+		if viaClient {
+			b, err := client.GetLatestCheckpoint(context.Background(), id)
+			switch {
+			case err == nil:
+				return 200, b
+			case errors.Is(err, os.ErrNotExist):
+				return 404, nil
+			}
+			return 500, nil
+		}
+		rec := httptest.NewRecorder()
+		router.ServeHTTP(rec, httptest.NewRequest(http.MethodGet, "/witness/v0/logs/"+id+"/checkpoint", nil))
+		return rec.Code, rec.Body.Bytes()
+	}
+	a, b := u.Logs[0], u.Logs[len(u.Logs)-1]
+	paused, release := make(chan struct{}), make(chan struct{})
+	var once sync.Once
+	hook.SetAfterRead(func(id string) {
+		first := false
+		if id == a.ID {
+			once.Do(func() { first = true })
+		}
+		if first {
+			close(paused)
+			<-release
+		}
+	})
+	type res struct {
+		code int
+		body []byte
+	}
+	ach := make(chan res, 1)
+	go func() { c, bb := read(a.ID); ach <- res{c, bb} }()
+	select {
+	case <-paused:
+	case <-time.After(20 * time.Second):
+		close(release)
+		run.Inconclusive("watchdog: read A never reached the store")
+		return
+	}
+	bch := make(chan res, 1)
+	go func() { c, bb := read(b.ID); bch <- res{c, bb} }()
+	var gb res
+	queued := false
+	select {
+	case gb = <-bch:
+	case <-time.After(300 * time.Millisecond):
+		queued = true
+	}
+	close(release)
+	if queued {
+		select {
+		case gb = <-bch:
+		case <-time.After(30 * time.Second):
+			run.Inconclusive("watchdog: read B did not return after read A was released")
+			return
+		}
+	}
+	ga := <-ach
+	run.Add("evaluations", 2)
+	run.Count("overlapping_reads_of_two_logs")
+	run.Distinct("nontrivial", fmt.Sprintf("cross/client=%v/b_stored=%v/%s/queued=%v", viaClient, want[b.ID] != nil, st.Kind, queued))
+	judge := func(which string, l *gen.Log, g res) {
+		w := want[l.ID]
+		ok := (w == nil && g.code == 404) || (w != nil && g.code == 200 && bytes.Equal(g.body, w))
+		if !ok {
+			other := ""
+			for id, ob := range want {
+				if id != l.ID && bytes.Equal(ob, g.body) {
+					other = " - these are the bytes stored for another log"
+				}
+			}
+			run.Violate("overlapping_reads_cross_logs;client="+fmt.Sprint(viaClient), fmt.Sprintf("two reads of different logs overlapped; read %s got status %d and bytes that are not what the witness holds for its log%s", which, g.code, other), unit, map[string]any{"store": st.Kind, "got": string(g.body), "want": string(w)})
+		}
+	}
+	judge("A", a, ga)
+	judge("B", b, gb)
 }
